@@ -27,9 +27,9 @@ def _close(a, b):
     return abs(a - b) <= 1e-10 * max(abs(a), abs(b)) + 1e-300
 
 
-def _build(sp):
+def _build(sp, share=False):
     with specmod.quiet():
-        M = specmod.to_model(sp)
+        M = specmod.to_model(sp, share_dicts=share)
         from bioscrape.simulator import ModelCSimInterface, SafeModelCSimInterface
         I = ModelCSimInterface(M)
         S = SafeModelCSimInterface(M)
@@ -129,7 +129,9 @@ def check(case):
         return res
     if case["kind"] == "gen":
         sp = case["spec"]
-        M, I, S = _build(sp)
+        M, I, S = _build(sp, share=bool(case.get("share_dicts")))
+        if case.get("share_dicts"):
+            res.label("gen:shared_parameter_dictionary")
         for pt in case["points"]:
             _compare(res, sp, M, I, S, pt["state"], pt["V"], pt["t"], "gen")
         nt = False
@@ -207,7 +209,16 @@ def gen_cases(draw):
         V = draw(st.one_of(st.sampled_from([1.0, 0.5, 2.0]), gen.logfl(0.1, 10)))
         points.append({"state": state, "V": V, "t": draw(st.sampled_from([0.0, 1.5]))})
     sp = b.spec({s: 1.0 for s in species})
-    return {"kind": "gen", "spec": sp, "points": points}
+    share = False
+    ma = [rx for rx in sp["reactions"] if rx["type"] == "massaction"]
+    if len(ma) >= 2 and draw(st.integers(0, 3)) == 0:
+        # user code often re-uses one parameter dictionary for several reactions ({'k': 'kdeg'} for every degradation):
+        # all mass-action reactions get the same named rate constant and are built from the very same dict object
+        sp["params"]["kshared"] = draw(gen.logfl(1e-3, 1e3))
+        for rx in ma:
+            rx["pd"] = {"k": "kshared"}
+        share = True
+    return {"kind": "gen", "spec": sp, "points": points, "share_dicts": share}
 
 
 def search(ctx):
